@@ -53,7 +53,12 @@ class C16(Prop):
             p, c = rng.randint(0, 3), rng.randint(0, 4)
             ticks = p + c + 4
             reqs = sorted(rng.randint(0, ticks) for _ in range(rng.choice([0, 1, 1, 2, 3])))
-            out.append({'kind': 'order', 'p': p, 'c': c, 'reqs': reqs, 'kinds': [rng.choice(['rr', 'fnf', 'stream', 'mp']) for _ in reqs]})
+            case = {'kind': 'order', 'p': p, 'c': c, 'reqs': reqs, 'kinds': [rng.choice(['rr', 'fnf', 'stream', 'mp']) for _ in reqs]}
+            if rng.random() < 0.25:
+                # a client that grants leases itself: the publisher may grant inside subscribe() or from a task started then, i.e. while the
+                # transport is still connecting — the LEASE must still follow the SETUP (requests are left out: they would be lease-gated)
+                case.update(reqs=[], kinds=[], lease_pub=rng.choice(['subscribe', 'task', 'task2']))
+            out.append(case)
         for _ in range(n // 3):
             out.append({'kind': 'srv', 'lp': rng.random() < 0.5,
                         'frames': [{'ty': rng.choice(['SETUP', 'SETUP', 'SETUP', 'RESUME']), 'resume': rng.random() < 0.3, 'lease': rng.random() < 0.5,
@@ -82,7 +87,25 @@ class C16(Prop):
 
     async def _order(self, loop, case):
         from rsocket.payload import Payload
-        R = clientrun.ClientRun(loop, n_transports=1, provider_ticks=case['p'], connect_ticks=case['c'], ka_ms=100000, life_ms=1000000)
+        kw = {}
+        if case.get('lease_pub'):
+            from rsocket.lease import DefinedLease
+            from datetime import timedelta
+            mode = case['lease_pub']
+
+            class Pub:
+                def subscribe(self, subscriber):
+                    lease = DefinedLease(maximum_request_count=3, maximum_lease_time=timedelta(seconds=5))
+                    if mode == 'subscribe':
+                        subscriber.on_next(lease)
+                    else:
+                        async def later():
+                            for _ in range(0 if mode == 'task' else 2):
+                                await asyncio.sleep(0)
+                            subscriber.on_next(lease)
+                        asyncio.ensure_future(later())
+            kw = dict(honor_lease=True, lease_publisher=Pub())
+        R = clientrun.ClientRun(loop, n_transports=1, provider_ticks=case['p'], connect_ticks=case['c'], ka_ms=100000, life_ms=1000000, **kw)
         c = R.build()
         task = asyncio.ensure_future(c.connect())
         await asyncio.sleep(0)          # connect() has started: "while connecting" begins here
@@ -138,11 +161,15 @@ class C16(Prop):
             return ['setup ka=%d life=%d denc=%s mdenc=%s lease=%d d=%s md=%s' % (case['ka'], case['life'], name(case['denc']), name(case['mdenc']), case['lease'],
                                                                               p['d'] or '-', p['md'] or '-')]
         if case['kind'] == 'order':
+            if case.get('lease_pub'):
+                return []
             evs = [e for e in obs['events'] if e != 'QS-LATE']
             return ['cli ' + ' '.join(evs)]
         return ['eng 2 %d %s' % (1 if case['lp'] else 0, ' '.join(m for m, _ in obs['steps']))]
 
     def compare(self, case, obs, answers):
+        if not answers:
+            return None
         a = answers[0]
         if case['kind'] == 'fields':
             dump, hexs = a.split(' | ')
@@ -216,7 +243,7 @@ class C16(Prop):
         if case['kind'] == 'fields':
             return json.dumps(case, sort_keys=True) if (case['ka'] % 1000000 or case['life'] % 1000000) else None
         if case['kind'] == 'order':
-            return json.dumps(case, sort_keys=True) if case['reqs'] and min(case['reqs']) <= case['p'] + case['c'] else None
+            return json.dumps(case, sort_keys=True) if case.get('lease_pub') or (case['reqs'] and min(case['reqs']) <= case['p'] + case['c']) else None
         return json.dumps(case, sort_keys=True)
 
     def stats(self, case, obs):
